@@ -564,7 +564,7 @@ func master() int {
 		"wall_s":      wall,
 		"violations":  unlisted,
 	}
-	if infra == 0 {
+	if infra == 0 && os.Getenv("SIM_NO_EVIDENCE") == "" {
 		os.MkdirAll(filepath.Join(verif, "evidence"), 0o755)
 		b, _ := json.MarshalIndent(ev, "", " ")
 		if err := os.WriteFile(filepath.Join(verif, "evidence", id+".json"), append(b, '\n'), 0o644); err != nil {
